@@ -2,7 +2,6 @@ package checks
 
 import (
 	"fmt"
-	"os"
 	"path/filepath"
 	"sort"
 	"strings"
@@ -22,13 +21,13 @@ import (
 // state; fault-free batch: exit 0 ⇒ every designated path = new).
 
 type c10Case struct {
-	Tree       world.Tree        `json:"tree"`       // includes the initial state of every output path
+	Tree       world.Tree        `json:"tree"` // includes the initial state of every output path
 	Step       world.Step        `json:"step"`
-	New        map[string]string `json:"new"`        // designated output path → content of the reference run
-	Faulted    []string          `json:"faulted"`    // designated paths whose production is made to fail
-	Force      map[string]bool   `json:"force"`      // effective force-file-write per designated path
-	Init       map[string]string `json:"init"`       // designated path → absent|old|user|dir
-	Fault      string            `json:"fault"`      // stage fault label ("none" = fault-free batch)
+	New        map[string]string `json:"new"`     // designated output path → content of the reference run
+	Faulted    []string          `json:"faulted"` // designated paths whose production is made to fail
+	Force      map[string]bool   `json:"force"`   // effective force-file-write per designated path
+	Init       map[string]string `json:"init"`    // designated path → absent|old|user|dir
+	Fault      string            `json:"fault"`   // stage fault label ("none" = fault-free batch)
 	ForceLevel string            `json:"force_level"`
 	Discard    string            `json:"discard,omitempty"`
 }
@@ -138,7 +137,7 @@ func (w *c10World) prepare(c *core.Ctx, id string) {
 		}
 		out := map[string]string{}
 		for _, f := range w.files {
-			b, err := os.ReadFile(filepath.Join(root, f.path))
+			b, err := world.ReadRegular(filepath.Join(root, f.path))
 			if err != nil {
 				w.discard = tag + " run did not produce " + f.path
 				return nil
@@ -285,7 +284,7 @@ func (w *c10World) build(r *core.Rng, fault, policy string, yr int) c10Case {
 	}
 	// initial state of every designated path
 	for _, f := range w.files {
-		st := core.Pick(r, []string{"absent", "absent", "absent", "old", "old", "old", "user", "dir"})
+		st := core.Pick(r, []string{"absent", "absent", "absent", "old", "old", "old", "user", "dir", "full"})
 		cs.Init[f.path] = st
 		switch st {
 		case "old":
@@ -294,6 +293,12 @@ func (w *c10World) build(r *core.Rng, fault, policy string, yr int) c10Case {
 			p.Aux[f.path] = "package mocks\n\n// hand-written file that happens to live at the output path\nvar UserValue = 42\n"
 		case "dir":
 			p.Aux[f.path+"/keep.txt"] = "a directory occupies the output path\n"
+		case "full":
+			// the device behind this path is full: it opens, and every write fails with ENOSPC
+			if p.Links == nil {
+				p.Links = map[string]string{}
+			}
+			p.Links[f.path] = "/dev/full"
 		}
 	}
 	cs.Tree = p.Tree()
@@ -400,7 +405,7 @@ func evalC10(c *core.Ctx, cs c10Case, id string) Outcome {
 			if hasA {
 				obs = a.Kind + " " + a.Hash[:min(12, len(a.Hash))]
 				if a.Kind == "file" {
-					bs, _ := os.ReadFile(filepath.Join(root, p))
+					bs, _ := world.ReadRegular(filepath.Join(root, p))
 					obs += fmt.Sprintf(" (%d bytes, starts %q)", len(bs), tailStr(string(bs), 80))
 				}
 			}
@@ -433,6 +438,12 @@ func evalC10(c *core.Ctx, cs c10Case, id string) Outcome {
 		}
 	}
 	if res.Exit == 0 {
+		// W1: a disk-full path that may be overwritten is opened and the write fails (ENOSPC)
+		for _, p := range core.SortedKeys(designated) {
+			if cs.Init[p] == "full" && cs.Force[p] {
+				return mk("W1-exit-0-although-the-write-failed", p, "a run that could not write an output file (no space left on device) fails", "exit 0")
+			}
+		}
 		if blocked > 0 {
 			return mk("O2-exit-0-despite-existing-file", firstBlocked(designated, before, cs), "the run fails when an existing output path may not be overwritten", "exit 0")
 		}
@@ -461,6 +472,9 @@ func evalC10(c *core.Ctx, cs c10Case, id string) Outcome {
 	}
 	if refused > 0 && res.Exit != 0 {
 		out.Tags = append(out.Tags, "probe:existing_path_refused")
+	}
+	if res.Exit != 0 && strings.Contains(res.Stderr, "no space left on device") {
+		out.Tags = append(out.Tags, "fault:write-ENOSPC-fired")
 	}
 	if replaced > 0 {
 		out.Tags = append(out.Tags, "probe:existing_path_replaced")
@@ -504,7 +518,7 @@ func firstBlocked(designated map[string]bool, before world.Snapshot, cs c10Case)
 func RunC10(c *core.Ctx) int {
 	c.PrepareRepo(true)
 	nWorlds, perWorld := 24, 33
-	budget := 170 * time.Second
+	budget := 20 * time.Minute // quick: the case count is the contract, the clock only a watchdog
 	if c.Tier == "thorough" {
 		nWorlds, perWorld = 200, 66
 		budget = 28 * time.Minute
@@ -566,14 +580,14 @@ func RunC10(c *core.Ctx) int {
 	fk := append([]string(nil), c10Faults...)
 	sort.Strings(fk)
 	cov := map[string]any{
-		"rule":             "one evaluation = one child run of the instrumented mockery on (world, initial-state vector of the output paths, force-file-write placement, one stage fault aimed at one file or none, map-iteration policy); each (world, fault, init, force) is run under asc, desc and a seeded random order so that the faulted file is reached first, in the middle and last; non-trivial = ≥2 output files, ≥1 pre-existing, and a stage fault fired or an existing path was refused/replaced; distinct = hash(tree digest, order-decision vector, fault)",
-		"worlds":           nWorlds,
-		"stage_faults":     fk,
-		"initial_states":   []string{"absent", "old (generated by the same binary, other structname)", "user content", "directory with a file inside"},
-		"force_levels":     []string{"unset", "environment", "root", "package", "interface (uniform or mixed within a file)"},
-		"reference_runs":   2 * nWorlds,
+		"rule":               "one evaluation = one child run of the instrumented mockery on (world, initial-state vector of the output paths, force-file-write placement, one stage fault aimed at one file or none, map-iteration policy); each (world, fault, init, force) is run under asc, desc and a seeded random order so that the faulted file is reached first, in the middle and last; non-trivial = ≥2 output files, ≥1 pre-existing, and a stage fault fired or an existing path was refused/replaced; distinct = hash(tree digest, order-decision vector, fault)",
+		"worlds":             nWorlds,
+		"stage_faults":       fk,
+		"initial_states":     []string{"absent", "old (generated by the same binary, other structname)", "user content", "directory with a file inside"},
+		"force_levels":       []string{"unset", "environment", "root", "package", "interface (uniform or mixed within a file)"},
+		"reference_runs":     2 * nWorlds,
 		"instrumented_sites": rep.RangeSites,
-		"components":       map[string]any{"real": []string{"mockery CLI (all packages)", "go list", "tmpfs"}, "instrumented": []string{fmt.Sprintf("%d map-range sites", len(rep.RangeSites)), "time.Now", "os.Getpid"}, "stub": []string{"HTTP origins (scripted RoundTripper)"}},
+		"components":         map[string]any{"real": []string{"mockery CLI (all packages)", "go list", "tmpfs"}, "instrumented": []string{fmt.Sprintf("%d map-range sites", len(rep.RangeSites)), "time.Now", "os.Getpid"}, "stub": []string{"HTTP origins (scripted RoundTripper)"}},
 	}
 	return res.Finish(c, "fault_enumeration", cov, []string{
 		"the complete new content of a path is obtained differentially from a fault-free reference run of the same binary on a pristine tree",
